@@ -707,3 +707,20 @@ mod test {
         assert_eq!(Polynomial::constant(12289), difference);
     }
 }
+
+/// Verification hooks: the two private steps of key generation that a
+/// harness needs in order to pre-screen seeds cheaply.
+#[cfg(feature = "verif-hooks")]
+pub mod verif {
+    use rand::RngCore;
+
+    pub fn gen_poly(n: usize, rng: &mut dyn RngCore) -> Vec<i16> {
+        super::gen_poly(n, rng).coefficients
+    }
+    pub fn gram_schmidt_norm_squared(f: &[i16], g: &[i16]) -> f64 {
+        super::gram_schmidt_norm_squared(
+            &super::Polynomial::new(f.to_vec()),
+            &super::Polynomial::new(g.to_vec()),
+        )
+    }
+}
